@@ -305,6 +305,11 @@ func (s *Server) readMessage() (json.RawMessage, error) {
 		return nil, fmt.Errorf("missing Content-Length header")
 	}
 
+	// A negative length is never valid
+	if contentLength < 0 {
+		return nil, fmt.Errorf("invalid Content-Length: %d", contentLength)
+	}
+
 	// Validate content length against maximum
 	if contentLength > MaxContentLength {
 		return nil, fmt.Errorf("content length %d exceeds maximum allowed %d", contentLength, MaxContentLength)
